@@ -429,6 +429,13 @@ func cmdCheck(args []string) int {
 		}
 	}
 
+	if tf := os.Getenv("GOVC_TIMES"); tf != "" {
+		var all []map[string]any
+		for _, r := range mainRes {
+			all = append(all, map[string]any{"o": r.Obl.Name, "k": r.Obl.Kind, "a": r.Res.Status, "s": r.Res.Solver, "t": r.Res.TimeS, "tried": r.Res.Tried})
+		}
+		writeJSON(tf, all)
+	}
 	// evidence
 	var samples []map[string]any
 	for i, r := range mainRes {
